@@ -1,9 +1,10 @@
+\* generated from checks/C07.py (the check passes the same text as cfg_text); kept for running TLC by hand
 SPECIFICATION MCSpec
 CONSTANTS
   Vars = {"x", "y"}
   Ops = {"put", "touch", "remove", "removeif", "ensure", "copy", "move", "ecopy", "emove", "fromraw", "clear", "markro"}
-  SMin = 0
-  SMax = 1
+  SMin = 1
+  SMax = 2
   Preds = {"ideven", "idodd", "all"}
   Keys = {1, 2, 3}
   Caps = {4}
@@ -11,7 +12,7 @@ CONSTANTS
   RawShape = 1
   MaxLen = 3
   MaxKids = 2
-  ZeroTouch = TRUE
+  ZeroTouch = FALSE
   Ptr = FALSE
   FixedSlots = TRUE
   FixedUnset = TRUE
